@@ -41,13 +41,15 @@ OWN_SEG = 10
 class Peer(object):
     ''' Scripted peer + the endpoint under test. '''
 
-    def __init__(self, role, state):
+    def __init__(self, role, state, modulate=False):
         from vf.world.sim import Sim
         from vf import tcpcl_harness as th
         self.sim = Sim(seed=0, policy='eager')
         self.role = role
         sock_a, sock_b = self.sim.net.tcp_pair()
-        cfg = th.make_config('dtn://under-test/', segment_size_tx_initial=OWN_SEG)
+        extra = dict(modulate_target_ack_time=2) if modulate else {}
+        self.modulate = modulate
+        cfg = th.make_config('dtn://under-test/', segment_size_tx_initial=OWN_SEG, **extra)
         if role == 'passive':
             self.end = th.Endpoint(self.sim, 'E', cfg, sock_b, passive=True, peer_addr=('10.0.0.1', 40001))
             self.peer_sock, self.end_sock = sock_a, sock_b
@@ -59,6 +61,7 @@ class Peer(object):
         self.injected = []      # (msg, out_of_place, n_reactions_before)
         self.acked = {}         # endpoint transfer id -> octets acknowledged by the honest peer
         self.own_tids = []
+        self.refused_own = set()
         self.peer_next_id = 100
         self.open_rx = None     # transfer the peer has open towards the endpoint: dict(id, data)
         self.completed_rx = []  # payloads of complete START..END runs of a single id
@@ -70,6 +73,9 @@ class Peer(object):
 
     # -- plumbing
     def write(self, data):
+        if self.modulate:
+            # the adaptive controller divides by the acknowledgement delay: let (virtual) time pass as on a real network
+            self.sim.advance(1000000)
         sent = 0
         while sent < len(data):
             count = self.peer_sock.tx.write(data[sent:])
@@ -158,6 +164,8 @@ class Peer(object):
         seg(tw.FLAG_START, lambda: self._fresh_id(), b'first-', 'seg-start')
         seg(0, lambda: self.open_rx['id'] if self.open_rx else 7777, b'mid', 'seg-mid-current')
         seg(tw.FLAG_END, lambda: self.open_rx['id'] if self.open_rx else 7777, b'last', 'seg-end-current')
+        seg(0, 0, b'mid', 'seg-mid-zero')
+        seg(tw.FLAG_END, 0, b'end', 'seg-end-zero')
         seg(0, 8888, b'mid', 'seg-mid-other')
         seg(tw.FLAG_END, 8889, b'end', 'seg-end-other')
 
@@ -177,6 +185,8 @@ class Peer(object):
             alpha[tag] = make
 
         refuse(5151, 'refuse-unknown', True)
+        # names the first id the endpoint hands out: unknown unless that transfer exists and the session is established
+        refuse(1, 'refuse-id1', not (self.sent_sess_init and '1' in self.own_tids and 1 not in self.refused_own))
         if own_id is not None:
             refuse(own_id, 'refuse-own', False)
         alpha['sess-term'] = lambda: (dict(type='SESS_TERM', flags=0, reason=0), not self.sent_sess_init)
@@ -263,8 +273,8 @@ class Peer(object):
         self.settle()
 
 
-def run_sequence(role, state, names, obs):
-    peer = Peer(role, state)
+def run_sequence(role, state, names, obs, modulate=False):
+    peer = Peer(role, state, modulate=modulate)
     problems = []
     # already out of place things must not have happened while reaching the state
     if peer.sim.world.callback_errors:
@@ -275,8 +285,11 @@ def run_sequence(role, state, names, obs):
     any_oop = False
     for name in names:
         if name == 'queue-own':
-            if peer.sent_sess_init and not peer.closed():
-                peer.queue_own()
+            if not peer.closed():
+                try:
+                    peer.queue_own()
+                except Exception:  # pylint: disable=broad-except
+                    pass    # refused at the boundary
                 peer.settle()
             continue
         rec = peer.inject(name)
@@ -324,6 +337,16 @@ def run_sequence(role, state, names, obs):
                 [item[:12] for item in delivered], [item[:12] for item in peer.completed_rx]), {}))
         # (4) own transfers unaffected
         legal_end = peer.closed() or peer.terminating()
+        if not legal_end and not peer.sent_sess_init:
+            # the peer now behaves: it completes the negotiation
+            if not peer.sent_contact:
+                peer.write(tw.encode(dict(type='contact', flags=0)))
+                peer.sent_contact = True
+                peer.settle()
+            peer.write(tw.encode(dict(type='SESS_INIT', keepalive=0, segment_mru=2 ** 20, transfer_mru=2 ** 30, nodeid=b'dtn://peer/', ext=[])))
+            peer.sent_sess_init = True
+            peer.settle()
+            legal_end = peer.closed() or peer.terminating()
         if not legal_end and peer.sent_sess_init:
             if not peer.own_tids:
                 peer.queue_own()
@@ -336,7 +359,7 @@ def run_sequence(role, state, names, obs):
                 fins = {}
                 for ev in peer.sim.hist.signals('send_bundle_finished'):
                     fins.setdefault(str(ev['args'][0]), []).append(ev['args'][2])
-                refused = set(str(rec['msg']['transfer_id']) for rec in peer.injected if rec['msg']['type'] == 'XFER_REFUSE')
+                refused = set(str(rec['msg']['transfer_id']) for rec in peer.injected if rec['msg']['type'] == 'XFER_REFUSE' and not rec['out_of_place'])
                 for tid in peer.own_tids:
                     res = fins.get(tid)
                     if tid in refused:
@@ -351,7 +374,7 @@ def run_sequence(role, state, names, obs):
 
 def _state_alphabet(state):
     base = ['seg-whole', 'seg-start', 'seg-mid-current', 'seg-end-current', 'seg-mid-other', 'seg-end-other', 'ack-unknown', 'ack-unknown-end',
-            'refuse-unknown', 'sess-term', 'keepalive', 'msg-reject', 'unknown-type', 'unknown-type-ff', 'unknown-type-00', 'unknown-type-08']
+            'refuse-unknown', 'refuse-id1', 'seg-mid-zero', 'seg-end-zero', 'sess-term', 'keepalive', 'msg-reject', 'unknown-type', 'unknown-type-ff', 'unknown-type-00', 'unknown-type-08']
     if state == 'pre-contact':
         return ['contact-bad-magic', 'contact-bad-version', 'contact-bad-version-7', 'contact-bad-magic+good', 'contact-v3+good', 'contact-bad-magic+good+init']
     if state == 'own-unacked':
@@ -367,12 +390,26 @@ def cases(tier, seed):
             alpha = _state_alphabet(state)
             seqs = [(name,) for name in alpha] + list(itertools.product(alpha, repeat=2))
             if thorough and state != 'pre-contact':
-                reduced = [name for name in alpha if name not in ('seg-end-other', 'ack-unknown-end', 'unknown-type-ff', 'unknown-type-08', 'msg-reject')]
+                reduced = [name for name in alpha if name not in ('seg-end-other', 'seg-end-zero', 'ack-unknown-end', 'unknown-type-ff', 'unknown-type-08', 'msg-reject')]
                 seqs += list(itertools.product(reduced, repeat=3))
             block = 40
             for idx in range(0, len(seqs), block):
                 out.append(dict(id='seq-%s-%s-%d' % (role, state, idx), kind='seqs', role=role, state=state,
                                 seqs=[list(item) for item in seqs[idx:idx + block]]))
+    # bundles handed over while the session is still negotiating, then an early message about them
+    for role in ('passive', 'active'):
+        seqs = [['queue-own', name] for name in ('refuse-id1', 'ack-unknown', 'seg-whole', 'sess-term', 'keepalive')] + \
+               [['queue-own', 'queue-own', 'refuse-id1', 'refuse-id1']]
+        for state in ('pre-contact', 'pre-init'):
+            out.append(dict(id='early-%s-%s' % (role, state), kind='seqs', role=role, state=state, seqs=seqs))
+    # the same alphabet with the adaptive segment size switched on (another path through the ACK handler)
+    for role in ('passive', 'active'):
+        for state in ('idle', 'own-unacked', 'receiving'):
+            alpha = _state_alphabet(state)
+            seqs = [(name,) for name in alpha] + ([(one, two) for one in alpha for two in ('ack-unknown', 'ack-unknown-end', 'seg-whole')] if thorough else [])
+            for idx in range(0, len(seqs), 40):
+                out.append(dict(id='mod-%s-%s-%d' % (role, state, idx), kind='seqs', role=role, state=state, modulate=True,
+                                seqs=[list(item) for item in seqs[idx:idx + 40]]))
     for idx in range(1500 if thorough else 24):
         out.append(dict(id='rand-%d' % idx, kind='rand', seed=seed * 7477 + idx, count=25))
     return out
@@ -388,6 +425,7 @@ def run_case(case):
     classes = set()
     sample = None
     items = []
+    modulate = bool(case.get('modulate'))
     if case['kind'] == 'seqs':
         items = [(case['role'], case['state'], seq) for seq in case['seqs']]
     else:
@@ -397,10 +435,10 @@ def run_case(case):
             alpha = _state_alphabet(state) + ['queue-own']
             items.append((rng.choice(['passive', 'active']), state, [rng.choice(alpha) for _ in range(rng.randint(3, 12))]))
     for (role, state, seq) in items:
-        problems, any_oop = run_sequence(role, state, seq, obs)
+        problems, any_oop = run_sequence(role, state, seq, obs, modulate=modulate)
         obs['sequences'] += 1
         if any_oop:
-            classes.add('%s|%s|%s' % (role, state, ','.join(seq)))
+            classes.add('%s|%s|%s|%s' % (role, state, ','.join(seq), modulate))
         if sample is None and any_oop:
             sample = dict(role=role, state=state, sequence=seq)
         for (kind, text, extra) in problems:
